@@ -519,8 +519,8 @@ func (p *Pattern) matchIdentical(state *MatcherState, sub *pattern, typ types.Ty
 		if !ok {
 			return false
 		}
-		// A pattern can't spell a ...T parameter.
-		if typ.Variadic() {
+		// A pattern can't spell a ...T parameter or a type parameter list.
+		if typ.Variadic() || typ.TypeParams().Len() != 0 {
 			return false
 		}
 		numParams := sub.value.(int)
@@ -541,8 +541,8 @@ func (p *Pattern) matchIdentical(state *MatcherState, sub *pattern, typ types.Ty
 		if !ok {
 			return false
 		}
-		// A pattern can't spell a ...T parameter.
-		if typ.Variadic() {
+		// A pattern can't spell a ...T parameter or a type parameter list.
+		if typ.Variadic() || typ.TypeParams().Len() != 0 {
 			return false
 		}
 		numParams := sub.value.(int)
